@@ -139,8 +139,12 @@ class DistanceMixin:
         if _original_type is None:
             return
 
-        added = np_array_factory(added, dtype=_original_type)
-        removed = np_array_factory(removed, dtype=_original_type)
+        try:
+            added = np_array_factory(added, dtype=_original_type)
+            removed = np_array_factory(removed, dtype=_original_type)
+        except OverflowError:
+            # integers that do not fit the numpy dtype: the distances are calculated pair by pair instead.
+            return
 
         pairs = cartesian_product_numpy(added, removed)
 
